@@ -20,7 +20,6 @@ use std::collections::BTreeSet;
 use std::collections::VecDeque;
 use std::str::from_utf8;
 use std::str::from_utf8_unchecked;
-use std::str::FromStr;
 
 use crate::builder::ArrayBuilder;
 use crate::builder::ObjectBuilder;
@@ -1455,11 +1454,10 @@ pub fn is_object(value: &[u8]) -> bool {
 /// Convert `JSONB` value to `serde_json` Value
 pub fn to_serde_json(value: &[u8]) -> Result<serde_json::Value, Error> {
     if !is_jsonb(value) {
-        let json_str = std::str::from_utf8(value)?;
-        return match serde_json::Value::from_str(json_str) {
-            Ok(v) => Ok(v),
-            Err(_) => Err(Error::InvalidJson),
-        };
+        // read the text with this crate's parser, like every other function does, so that
+        // text and its JSONB encoding convert to the same serde_json value
+        let val = parse_value(value)?;
+        return containter_to_serde_json(&val.to_vec());
     }
 
     containter_to_serde_json(value)
@@ -1470,14 +1468,8 @@ pub fn to_serde_json_object(
     value: &[u8],
 ) -> Result<Option<serde_json::Map<String, serde_json::Value>>, Error> {
     if !is_jsonb(value) {
-        let json_str = std::str::from_utf8(value)?;
-        return match serde_json::Value::from_str(json_str) {
-            Ok(v) => match v {
-                serde_json::Value::Object(obj) => Ok(Some(obj.clone())),
-                _ => Ok(None),
-            },
-            Err(_) => Err(Error::InvalidJson),
-        };
+        let val = parse_value(value)?;
+        return containter_to_serde_json_object(&val.to_vec());
     }
 
     containter_to_serde_json_object(value)
